@@ -1,7 +1,454 @@
-/- C03: model not built yet (stub so that the per-property driver links). -/
+/-
+C03 — Abaco ingest.  Transcription of `abaco.go`:
+`AbacoGroup.samplePackets` (sync offset / last sequence number), `distributePackets` → `enqueuePacket`,
+`fillMissingPackets` (+ `packets.MakePretendPacket`), `firstSeqNum`, `trimPacketsBefore`,
+`countSamplesInQueue`, the min-over-groups frame count, `demuxData` (16- and 32-bit payloads),
+the tick body of `readerMainLoop` and the frame stamping of `distributeData`.
+
+Conventions: sequence numbers are `Nat` (the code uses uint32; guard `< 2^32`, and every packet's
+number is ≥ its group's sync offset).  Phase unwrapping is switched off (C12 covers it): with the
+zero `AbacoUnwrapOptions` `UnwrapInPlace` is the identity.  Go's map iteration order over the groups
+is the explicit parameter `perm` (a list of group indices).  A Go panic is `Except.error`.
+-/
 import DastardV.Proto
 namespace DastardV.C03
 
-def runLine (_ts : List String) : Verdict := .bad "C03: model not built yet"
+/-- a data packet of one channel group: sequence number, payload kind (`wide` = `[]int32`,
+otherwise `[]int16`) and the raw payload values, frame after frame, `nchan` values per frame -/
+structure Pkt where
+  sn : Nat
+  wide : Bool
+  data : List Int
+deriving Repr, DecidableEq
+
+/-- `RawType(d[j])` for int16 payloads, `RawType(d[j] / 0x10000)` for int32 payloads
+(Go's `/` truncates toward zero; `RawType` is uint16) -/
+def conv (wide : Bool) (x : Int) : Nat :=
+  if wide then (Int.tdiv x 65536 % 65536).toNat else (x % 65536).toNat
+
+/-- `Packet.Frames()` for a packet of a group with `nchan` channels (= `len(d)/nchan`) -/
+def Pkt.frames (nchan : Nat) (p : Pkt) : Nat := p.data.length / nchan
+
+/-- `MakePretendPacket(seqnum, nchan)`: `x[i] = d[i % nchan]` -/
+def pretend (nchan : Nat) (p : Pkt) (sn : Nat) : Pkt :=
+  { sn, wide := p.wide, data := (List.range p.data.length).map fun i => p.data.getD (i % nchan) 0 }
+
+/-- one channel of one packet as `demuxData` writes it: `dc[i] = conv d[c + nchan*i]`, `i < len(d)/nchan` -/
+def chanOf (nchan c : Nat) (p : Pkt) : List Nat :=
+  (List.range (p.data.length / nchan)).map fun i => conv p.wide (p.data.getD (c + nchan * i) 0)
+
+/-- one channel of a run of packets -/
+def chanData (nchan c : Nat) (ps : List Pkt) : List Nat := (ps.map (chanOf nchan c)).flatten
+
+structure Group where
+  first : Nat            -- Firstchan (the groups of a source are kept sorted by it)
+  nchan : Nat
+  queue : List Pkt
+  lastSN : Nat
+  sync : Nat
+deriving Repr, DecidableEq
+
+/-- `samplePackets`: the sync offset is the number of the first start-up packet that carries a
+timestamp (0 when none does), `lastSN` the number of the last start-up packet; the queue is cleared. -/
+def initGroup (first nchan : Nat) (sample : List (Nat × Bool)) : Group :=
+  { first, nchan, queue := []
+    lastSN := (sample.getLast?.map (·.1)).getD 0
+    sync := ((sample.find? (·.2)).map (·.1)).getD 0 }
+
+/-! ### fillMissingPackets -/
+
+/-- the inner loop `for snexpect < sn { newq = append(newq, pretend); snexpect++ }`, `k = sn - snexpect` rounds -/
+def fakes (nchan : Nat) (p : Pkt) : Nat → Nat → List Pkt
+  | 0, _ => []
+  | k + 1, e => pretend nchan p e :: fakes nchan p k (e + 1)
+
+/-- the outer loop over the queue; returns the new queue and `framesAdded`.  `e` is `snexpect`.
+A packet numbered below `snexpect` was already in the queue at an earlier call (any gap before it
+was filled then): it is copied and `snexpect` stays.  Otherwise the inner loop runs `sn - snexpect`
+rounds, the packet is appended and `snexpect` becomes `sn + 1`. -/
+def fillLoop (nchan : Nat) : Nat → List Pkt → List Pkt × Nat
+  | _, [] => ([], 0)
+  | e, p :: ps =>
+    if p.sn < e then
+      let r := fillLoop nchan e ps
+      (p :: r.1, r.2)
+    else
+      let r := fillLoop nchan (p.sn + 1) ps
+      (fakes nchan p (p.sn - e) e ++ p :: r.1, (p.sn - e) * p.frames nchan + r.2)
+
+def lastSnOr (d : Nat) (q : List Pkt) : Nat := (q.getLast?.map (·.sn)).getD d
+
+/-- `fillMissingPackets`: returns the group and `framesAdded` -/
+def fillG (g : Group) : Group × Nat :=
+  match g.queue with
+  | [] => (g, 0)
+  | _ :: _ =>
+    let r := fillLoop g.nchan (g.lastSN + 1) g.queue
+    ({ g with queue := r.1, lastSN := lastSnOr g.lastSN r.1 }, r.2)
+
+/-! ### the tick body of readerMainLoop -/
+
+/-- `distributePackets`: append each group's arrivals to its queue -/
+def enq : List Group → List (List Pkt) → List Group
+  | [], _ => []
+  | gs, [] => gs
+  | g :: gs, a :: as => { g with queue := g.queue ++ a } :: enq gs as
+
+/-- first loop over the groups (map order = `perm`): fill, then `firstSeqNum`; an empty queue means
+`continue awaitmoredata` (`none`).  Returns the groups, the dropped-frame counter and `firstSn`. -/
+def loop1 : List Nat → List Group → Nat → Nat → List Group × Nat × Option Nat
+  | [], gs, fsn, dr => (gs, dr, some fsn)
+  | i :: is, gs, fsn, dr =>
+    match gs[i]? with
+    | none => loop1 is gs fsn dr
+    | some g =>
+      let r := fillG g
+      let gs' := gs.set i r.1
+      match r.1.queue with
+      | [] => (gs', dr + r.2, none)
+      | p :: _ => loop1 is gs' (max fsn (p.sn - r.1.sync)) (dr + r.2)
+
+/-- `trimPacketsBefore` on a non-empty queue (`target = firstSn + seqnumsync`) -/
+def trimLoop (target : Nat) : List Pkt → List Pkt
+  | [] => []
+  | p :: ps => if p.sn ≥ target then p :: ps else trimLoop target ps
+
+def trimG (fsn : Nat) (g : Group) : Group := { g with queue := trimLoop (fsn + g.sync) g.queue }
+
+/-- `countSamplesInQueue` -/
+def countFrames (g : Group) : Nat := (g.queue.map (·.data.length)).sum / g.nchan
+
+/-- `framesToDeMUX`: minimum over the groups (`none`: no group at all) -/
+def minFrames : List Group → Option Nat
+  | [] => none
+  | g :: gs => match minFrames gs with
+    | none => some (countFrames g)
+    | some m => some (min (countFrames g) m)
+
+/-- the packet loop of `demuxData`: consume packets while they fit; returns consumed, rest, frames left -/
+def demuxLoop (nchan : Nat) : Nat → List Pkt → List Pkt × List Pkt × Nat
+  | fr, [] => ([], [], fr)
+  | fr, p :: ps =>
+    if p.frames nchan > fr then ([], p :: ps, fr)
+    else
+      let r := demuxLoop nchan (fr - p.frames nchan) ps
+      (p :: r.1, r.2.1, r.2.2)
+
+/-- `demuxData`: panics when frames remain to be filled; otherwise the group's channels -/
+def demuxG (fr : Nat) (g : Group) : Except Unit (Group × List (List Nat)) :=
+  let r := demuxLoop g.nchan fr g.queue
+  if r.2.2 > 0 then .error ()
+  else .ok ({ g with queue := r.2.1 }, (List.range g.nchan).map fun c => chanData g.nchan c r.1)
+
+/-- demux every group in `groupKeysSorted` order -/
+def demuxAll (fr : Nat) : List Group → Except Unit (List Group × List (List (List Nat)))
+  | [] => .ok ([], [])
+  | g :: gs =>
+    match demuxG fr g with
+    | .error e => .error e
+    | .ok (g', d) =>
+      match demuxAll fr gs with
+      | .error e => .error e
+      | .ok (gs', ds) => .ok (g' :: gs', d :: ds)
+
+/-- one block as stamped by `distributeData`: per group, per channel samples; `nframes` is
+`len(datacopies[0])` (= `framesToDeMUX`), by which `nextFrameNum` advances -/
+structure Block where
+  data : List (List (List Nat))
+  nframes : Nat
+  dropped : Nat
+  first : Int
+deriving Repr, DecidableEq
+
+structure St where
+  groups : List Group
+  nextFrame : Int
+  pend : Nat             -- frames filled in since the last emitted buffer (`droppedFrames` of the loop)
+deriving Repr, DecidableEq
+
+/-- one read tick.  The dropped-frame counter lives across ticks and is reset when a buffer is sent. -/
+def tick (s : St) (arr : List (List Pkt)) (perm : List Nat) : Except Unit (St × Option Block) :=
+  let gs0 := enq s.groups arr
+  match loop1 perm gs0 0 s.pend with
+  | (gs1, dr, none) => .ok ({ s with groups := gs1, pend := dr }, none)
+  | (gs1, dr, some fsn) =>
+    let gs2 := gs1.map (trimG fsn)
+    match minFrames gs2 with
+    | none => .error ()
+    | some 0 => .ok ({ s with groups := gs2, pend := dr }, none)
+    | some (fr + 1) =>
+      match demuxAll (fr + 1) gs2 with
+      | .error e => .error e
+      | .ok (gs3, data) =>
+        .ok ({ groups := gs3, nextFrame := s.nextFrame + ((fr + 1 : Nat) : Int), pend := 0 },
+             some { data, nframes := fr + 1, dropped := dr, first := s.nextFrame })
+
+/-- a whole run: one tick per entry of the history, `perms` gives the map order of each tick;
+the output lists the emitted blocks with the index of the emitting tick -/
+def runFrom (t : Nat) (s : St) : List (List (List Pkt)) → List (List Nat) →
+    Except Unit (St × List (Nat × Block))
+  | [], _ => .ok (s, [])
+  | arr :: hs, perms =>
+    match tick s arr (perms.headD []) with
+    | .error e => .error e
+    | .ok (s', o) =>
+      match runFrom (t + 1) s' hs perms.tail with
+      | .error e => .error e
+      | .ok (s'', bs) => .ok (s'', (match o with | none => bs | some b => (t, b) :: bs))
+
+/-! ### The property as a decidable oracle
+
+Layout of a group: channel count, last start-up sequence number `l0`, sync offset. -/
+
+structure GL where
+  nchan : Nat
+  l0 : Nat
+  sync : Nat
+deriving Repr, DecidableEq
+
+/-- the packet sequence a group's stream must consist of, from sequence number `e` on:
+`some p` = the arrived packet `p`, `none` = a lost packet (to be replaced by filler) -/
+def specFrom : Nat → List Pkt → List (Option Pkt)
+  | _, [] => []
+  | e, p :: ps => List.replicate (p.sn - e) none ++ some p :: specFrom (p.sn + 1) ps
+
+/-- everything group `i` received in the history -/
+def arrOf (H : List (List (List Pkt))) (i : Nat) : List Pkt := (H.map fun a => a.getD i []).flatten
+
+/-- first global sequence number common to all groups: `max (l0 + 1 - sync)` -/
+def startSN (L : List GL) : Nat := (L.map fun g => g.l0 + 1 - g.sync).foldl max 0
+
+/-- packets of group `g` that precede the common start -/
+def skipOf (S : Nat) (g : GL) : Nat := S + g.sync - (g.l0 + 1)
+
+def specOf (g : GL) (H : List (List (List Pkt))) (i : Nat) : List (Option Pkt) :=
+  specFrom (g.l0 + 1) (arrOf H i)
+
+/-- number of whole packets available in every group from the common start on -/
+def navail (L : List GL) (H : List (List (List Pkt))) : Nat :=
+  match (L.zipIdx.map fun (g, i) => (specOf g H i).length - skipOf (startSN L) g) with
+  | [] => 0
+  | a :: as => as.foldl min a
+
+/-- a channel stream `xs` consists of the pieces `E`: an arrived packet contributes exactly its
+samples of channel `c`, a lost packet `fpp` filler samples (any values) -/
+def streamOK (fpp nchan c : Nat) : List (Option Pkt) → List Nat → Bool
+  | [], xs => xs.isEmpty
+  | some p :: E, xs => xs.take fpp == chanOf nchan c p && fpp ≤ xs.length && streamOK fpp nchan c E (xs.drop fpp)
+  | none :: E, xs => fpp ≤ xs.length && streamOK fpp nchan c E (xs.drop fpp)
+
+def catChan (bs : List Block) (i c : Nat) : List Nat :=
+  (bs.map fun b => (b.data.getD i []).getD c []).flatten
+
+/-- every block: one channel list per group, `nchan` channels each, all of length `nframes` -/
+def chkShape (L : List GL) (bs : List Block) : Bool :=
+  bs.all fun b => b.data.map (·.length) == L.map (·.nchan) &&
+    b.data.all fun g => g.all fun ch => ch.length == b.nframes
+
+/-- block frame numbers are contiguous, starting at `f0` -/
+def chkFrames : Int → List Block → Bool
+  | _, [] => true
+  | f, b :: bs => b.first == f && chkFrames (f + (b.nframes : Int)) bs
+
+/-- per channel, the concatenated blocks are exactly the expected stream of `navail` packets from the common start -/
+def chkStream (fpp : Nat) (L : List GL) (H : List (List (List Pkt))) (bs : List Block) : Bool :=
+  L.zipIdx.all fun (g, i) =>
+    (List.range g.nchan).all fun c =>
+      streamOK fpp g.nchan c (((specOf g H i).drop (skipOf (startSN L) g)).take (navail L H)) (catChan bs i c)
+
+/-- frames filled in so far: `fpp` for each lost packet of each group -/
+def lostFrames (fpp : Nat) (L : List GL) (H : List (List (List Pkt))) : Nat :=
+  (L.zipIdx.map fun (g, i) => fpp * ((specOf g H i).length - (arrOf H i).length)).sum
+
+/-- when the last tick of the history emitted a block, the dropped-frame counts reported so far
+add up to the frames filled in so far -/
+def chkDropped (fpp : Nat) (L : List GL) (H : List (List (List Pkt))) (out : List (Nat × Block)) : Bool :=
+  match out.getLast? with
+  | none => true
+  | some (t, _) =>
+    if t + 1 == H.length then (out.map (·.2.dropped)).sum == lostFrames fpp L H else true
+
+/-- the oracle: the property's clauses for a history `H` and the blocks emitted during it -/
+def chkC03 (fpp : Nat) (L : List GL) (f0 : Int) (H : List (List (List Pkt))) (out : List (Nat × Block)) : Bool :=
+  chkShape L (out.map (·.2)) && chkFrames f0 (out.map (·.2)) &&
+  chkStream fpp L H (out.map (·.2)) && chkDropped fpp L H out
+
+/-- the input guard: every packet of group `i` carries `fpp` frames of `nchan` values, numbers are
+strictly increasing from `l0` on and `< 2^32`, and the sync offset is not beyond `l0 + 1` -/
+def pktOK (fpp nchan : Nat) (p : Pkt) : Bool := p.data.length == fpp * nchan
+
+def increasing : Nat → List Pkt → Bool
+  | _, [] => true
+  | e, p :: ps => e ≤ p.sn && increasing (p.sn + 1) ps
+
+def validIn (fpp : Nat) (L : List GL) (H : List (List (List Pkt))) : Bool :=
+  fpp ≥ 1 && !L.isEmpty && H.all (fun a => a.length == L.length) &&
+  L.zipIdx.all fun (g, i) =>
+    g.nchan ≥ 1 && g.sync ≤ g.l0 + 1 && increasing (g.l0 + 1) (arrOf H i) &&
+    (arrOf H i).all (fun p => pktOK fpp g.nchan p && p.sn < 4294967296)
+
+/-! ### Driver -/
+
+def permsOf : List Nat → List (List Nat)
+  | [] => [[]]
+  | x :: xs => (permsOf xs).flatMap fun p => (List.range (p.length + 1)).map fun k => p.take k ++ x :: p.drop k
+
+structure Case where
+  f0 : Int
+  groups : List (Nat × Nat × List (Nat × Bool))     -- first, nchan, start-up sample
+  hist : List (List (List Pkt))
+deriving Repr
+
+inductive Impl where
+  | blocks (bs : List (Nat × Nat × Block))     -- tick, uni flag, block
+  | panic
+  | err
+deriving Repr
+
+open P in
+def parsePkt : P Pkt := do
+  let sn ← nat
+  let w ← bool
+  let d ← list int
+  pure { sn, wide := w, data := d }
+
+open P in
+def parseCase : P (Case × Impl) := do
+  kw "f0"; let f0 ← int
+  kw "ng"; let ng ← nat
+  let groups ← rep (do
+    let first ← nat
+    let nchan ← nat
+    let smp ← list (do let sn ← nat; let ts ← bool; pure (sn, ts))
+    pure (first, nchan, smp)) ng
+  kw "ticks"; let nt ← nat
+  let hist ← rep (rep (list parsePkt) ng) nt
+  kw "OUT"
+  let t ← peek
+  if t == some "PANIC" then pure ({ f0, groups, hist }, .panic) else
+  if t == some "ERR" || t == some "HANG" then pure ({ f0, groups, hist }, .err) else
+  let nchans := groups.map (·.2.1)
+  let bs ← list (do
+    let tk ← nat
+    let uni ← nat
+    let dr ← nat
+    let ff ← int
+    let chans ← list (list nat)
+    -- regroup the flat channel list by the groups' channel counts
+    let rec regroup : List Nat → List (List Nat) → List (List (List Nat))
+      | [], rest => if rest.isEmpty then [] else [rest]
+      | n :: ns, rest => rest.take n :: regroup ns (rest.drop n)
+    let b : Block := { data := regroup nchans chans, nframes := (chans.headD []).length, dropped := dr, first := ff }
+    pure (tk, uni, b))
+  pure ({ f0, groups, hist }, .blocks bs)
+
+def dedupSt (xs : List St) : List St := xs.foldl (fun acc x => if acc.contains x then acc else acc ++ [x]) []
+
+/-- all model states after one tick whose output equals the implementation's, over all map orders;
+also whether some order panics -/
+def stepSet (perms : List (List Nat)) (arr : List (List Pkt)) (want : Option (Option Block)) (ss : List St) :
+    List St × Bool :=
+  let rs := ss.flatMap fun s => perms.map fun p => tick s arr p
+  let pan := rs.any fun r => match r with | .error _ => true | .ok _ => false
+  let keep := rs.filterMap fun r => match r with
+    | .ok (s', o) => (match want with
+        | none => some s'
+        | some w => if o == w then some s' else none)
+    | .error _ => none
+  (dedupSt keep, pan)
+
+def showBlock (b : Option Block) : String :=
+  match b with
+  | none => "none"
+  | some b => s!"(nframes {b.nframes} dropped {b.dropped} first {b.first} data {b.data})"
+
+def runLine (ts : List String) : Verdict :=
+  match P.run parseCase ts with
+  | .error e => .bad e
+  | .ok (cs, impl) =>
+    let gs0 := cs.groups.map fun (first, nchan, smp) => initGroup first nchan smp
+    let L : List GL := gs0.map fun g => { nchan := g.nchan, l0 := g.lastSN, sync := g.sync }
+    let H := cs.hist
+    let allp := (List.range L.length).flatMap fun i => arrOf H i
+    let fpp := match (L.zipIdx.filterMap fun (g, i) => (arrOf H i).head?.map fun p => p.data.length / g.nchan) with
+      | [] => 1
+      | f :: _ => f
+    let valid := validIn fpp L H
+    let perms := permsOf (List.range L.length)
+    let s0 : St := { groups := gs0, nextFrame := cs.f0, pend := 0 }
+    -- tags from the model run under the identity order
+    let idp := List.range L.length
+    let leftover := Id.run do
+      let mut s := s0
+      let mut lo := false
+      let mut hot := false
+      for arr in H do
+        let had := s.groups.any fun g => !g.queue.isEmpty
+        match tick s arr idp with
+        | .ok (s', _) =>
+          -- a filler inserted into a queue that already held packets from an earlier tick
+          let grew := (s.groups.zip ((enq s.groups arr).zip s'.groups)).any fun (g, ge, g') =>
+            !g.queue.isEmpty && (fillG ge).2 > 0 && g'.lastSN ≠ g.lastSN
+          if had then lo := true
+          if grew then hot := true
+          s := s'
+        | .error _ => pure ()
+      pure (lo, hot)
+    let nlost := lostFrames fpp L H
+    let tags := [s!"ng{L.length}"] ++ (if leftover.1 then ["leftover"] else []) ++
+      (if leftover.2 then ["gap-behind-leftover"] else []) ++
+      (if nlost > 0 then ["loss"] else []) ++ (if allp.any (·.wide) then ["wide"] else []) ++
+      (if H.any (fun a => a.all (·.isEmpty)) then ["emptytick"] else []) ++
+      (if (L.map fun g => g.l0 + 1 - g.sync).any (· ≠ startSN L) then ["trim"] else [])
+    match impl with
+    | .err => .diff "implementation returned an error / hang"
+    | .panic =>
+      -- the model must be able to panic too (some tick, some map order)
+      let r := H.foldl (fun (acc : List St × Bool) arr =>
+        let (ss, pan) := stepSet perms arr none acc.1
+        (ss, acc.2 || pan)) ([s0], false)
+      if valid then .viol "C03:panic the reader loop panicked on a layout with equal frames per packet"
+      else if r.2 then .ok (tags ++ ["excluded-unequal-fpp", "panic"])
+      else .diff "implementation panicked, the model does not"
+    | .blocks ibs =>
+      -- (1) oracle on the implementation's output, on every prefix of the history
+      let out : List (Nat × Block) := ibs.map fun (t, _, b) => (t, b)
+      let viol : Option String :=
+        if !valid then none else
+        if ibs.any (fun (_, u, _) => u == 0) then some "C03:segments-disagree segments of one block carry different frame index / dropped count" else
+        (List.range (H.length + 1)).foldl (fun acc k =>
+          match acc with
+          | some v => some v
+          | none =>
+            let Hk := H.take k
+            let ok := out.filter fun (t, _) => t < k
+            let bs := ok.map (·.2)
+            if !chkShape L bs then some s!"C03:block-shape after tick {k}: channels of a block differ in length / count" else
+            if !chkFrames cs.f0 bs then some s!"C03:frames-not-contiguous after tick {k}" else
+            if !chkStream fpp L Hk bs then some s!"C03:stream-not-exact after tick {k}: a channel's stream is not the arrived samples + equal-length filler of the first {navail L Hk} common packets" else
+            if !chkDropped fpp L Hk ok then some s!"C03:dropped-count after tick {k}: reported {(ok.map (·.2.dropped)).sum} filled {lostFrames fpp L Hk}" else
+            none) none
+      match viol with
+      | some v => .viol v
+      | none =>
+        -- (2) model vs implementation, over all map orders
+        let r := (List.range H.length).foldl (fun (acc : List St × Option String) t =>
+          match acc.2 with
+          | some _ => acc
+          | none =>
+            let arr := H.getD t []
+            let want := (out.find? fun (tk, _) => tk == t).map (·.2)
+            let (ss, _) := stepSet perms arr (some want) acc.1
+            if ss.isEmpty then
+              let m := match acc.1.head? with
+                | some s => (match tick s arr idp with | .ok (_, o) => showBlock o | .error _ => "panic")
+                | none => "?"
+              (ss, some s!"tick {t}: no map order gives the implementation's output; model {m} impl {showBlock want}")
+            else (ss, none)) ([s0], none)
+        match r.2 with
+        | some d => .diff d
+        | none =>
+          if out.any (fun (t, _) => t ≥ H.length) then .diff "block attributed to a tick beyond the script" else
+          .ok (tags ++ (if valid then [] else ["excluded-unequal-fpp"]) ++ (if out.isEmpty then [] else ["blocks"]))
 
 end DastardV.C03
